@@ -290,6 +290,37 @@ pub fn print_serial_digest() {
     println!("{} {}", s.len(), fnv(&s));
 }
 
+/// `C16:cli`: the specifications whose acceptance on the real command line is compared with `Source::from_str`
+/// (every well-formed form on a stride, the first malformed ones of the grammar product) and what from_str says
+pub fn print_cli_specs() {
+    let apts = airports();
+    let mut specs: Vec<(String, bool)> = well_formed(&apts).into_iter().enumerate().filter(|(i, w)| i % 7 == 0 || w.spec.starts_with("rtlsdr") || w.spec.starts_with(':')).map(|(_, w)| (w.spec, true)).collect();
+    let mut n = 0;
+    for sc in SCHEMES {
+        for h in HOSTS {
+            for p in PORTS {
+                n += 1;
+                if n % 3 == 0 {
+                    specs.push((format!("{sc}{h}{p}"), false));
+                }
+            }
+        }
+    }
+    let out: Vec<Value> = specs
+        .iter()
+        .filter(|(s, _)| !s.contains('\0'))
+        .map(|(s, wf)| {
+            let a = match guarded(|| Source::from_str(s)) {
+                Ok(Ok(_)) => json!(true),
+                Ok(Err(_)) => json!(false),
+                Err(_) => json!("panic"),
+            };
+            json!({"spec": s, "well_formed": wf, "accepts": a})
+        })
+        .collect();
+    println!("{}", serde_json::to_string(&out).unwrap());
+}
+
 pub fn run(ctx: &Ctx, rep: &Report) {
     rep.set_rule("grammar product scheme x host x port x path x separator x reference, all strings up to a length over a 14-symbol alphabet (incl. two multi-byte characters), all well-formed endpoint/reference combinations, all airport codes; non-trivial = specifications that reach the per-scheme extraction (parse to Ok) or are well-formed");
     let apts = airports();
